@@ -1,10 +1,10 @@
 #!/bin/bash
-# run_all.sh [tier]: every registered check on the current /repo tree, one after the other; summary on stdout
+# run_all.sh [tier] : every registered check on the current /repo tree, one after the other; summary on stdout
 tier=${1:-quick}
 cd /verif
 git -C /repo diff --quiet || { echo "/repo is dirty: refusing"; exit 9; }
 for id in C11 C12 C14 C15 C13 C09 C02 C04 C03 C20 C19 C16 C17 C18 C10 C05 C06 C01 C07; do
   t0=$(date +%s)
-  ./check $id --tier $tier > /tmp/runall_$id.log 2>&1; rc=$?
-  echo "$id rc=$rc $(( $(date +%s) - t0 ))s $(tail -1 /tmp/runall_$id.log | cut -c1-120)"
+  ./check $id --tier $tier > /tmp/runall_${tier}_$id.log 2>&1; rc=$?
+  echo "$id rc=$rc $(( $(date +%s) - t0 ))s $(tail -1 /tmp/runall_${tier}_$id.log | cut -c1-120)"
 done
